@@ -52,7 +52,7 @@ FIXED_EXPRS = [
     # and / or / comparison precedence without parentheses (`or` binds weakest, then `and`, then = !=, then < <= > >=)
     "//*[@k or @j and @zz]", "//*[@zz and @j or @k]", "//*[@k='1' or @k='2' and @j]", "//*[@j and @zz or @k='1' or @k='x']",
     "//*[position()=1 or @k and @j='x']", "//*[@k=1 or @k<2 and @j]", "//*[@zz or @j or @k]", "//*[@k and @j and @zz or position()=2]",
-    "//*[@k or not(@j) and @zz]", "//*[@k='1' or position()<2 and position()>1]", "//*[@j='x' = @k='x' or @zz]",
+    "//*[@k or not(@j) and @zz]", "//*[@k='1' or position()<2 and position()>1]", "//*[(@j='x') = (@k='x') or @zz]",
     "//a[@k or @j and @zz][1]", "//b[@zz and @k or @k!='1' and @j]",
     # the root node as context node of every axis, followed by a step (the root node itself is never in a result)
     "/ancestor-or-self::node()/child::*", "/ancestor-or-self::node()/*/*", "../ancestor-or-self::node()/descendant::b",
